@@ -8,3 +8,4 @@
 -/
 import ForsysModel.Props.C04
 import ForsysModel.Props.C04system
+import ForsysModel.Props.C04more
